@@ -942,6 +942,42 @@ func TestVerifC36(t *testing.T) {
 			map[string]any{"k": k, "s": s, "out": mid})
 	}
 
+	// ---- B2: the URL filter's decision at the start of an href (Model/WebUrl.v:is_safe_url)
+	urlT := htmltemplate.Must(htmltemplate.New("u").Parse(`<a href="{{.}}">`))
+	for i := 0; i < n/2; i++ {
+		var s string
+		switch r.Intn(4) {
+		case 0:
+			s = r.Pick(vfC36Payloads)
+		case 1:
+			s = vfC36GenStr(r)
+		default:
+			pre := []string{"", "", " ", "\t", "\n", "\x00", "/", "a/", "#", "?", "x"}
+			sch := []string{"javascript", "JaVaScRiPt", "java\tscript", "http", "HTTPS", "https", "mailto", "MailTo", "data", "vbscript", "http\xc5\xbf", "htt\xc5\xbfp", "ftp", "", "h", "httpss", "mail to", "\xe2\x84\xaa", "http\xe2\x84\xaa"}
+			s = r.Pick(pre) + r.Pick(sch) + r.Pick([]string{":", ":", "", "/:", " :", "::"}) + r.Pick([]string{"alert(1)", "//ex.com/a?b=c", "", "x:y"})
+		}
+		if s == "#ZgotmplZ" {
+			continue
+		}
+		var buf bytes.Buffer
+		if err := urlT.Execute(&buf, s); err != nil {
+			vfOracleFail("esc:execute-error", "href mini template failed: "+err.Error(), map[string]any{"s": s})
+			continue
+		}
+		out := buf.String()
+		if !strings.HasPrefix(out, `<a href="`) || !strings.HasSuffix(out, `">`) {
+			vfOracleFail("esc:wrapper", "href mini template output lost its literal text", map[string]any{"s": s, "out": out})
+			continue
+		}
+		val := html.UnescapeString(out[len(`<a href="`) : len(out)-2])
+		rejected := val == "#ZgotmplZ"
+		if !vfC36URLSafe(val) {
+			vfOracleFail("unsafe-url-attr:mini", "html/template let a URL with a scheme other than http/https/mailto through: "+val, map[string]any{"s": s, "out": out})
+		}
+		vfCase(cApp("CUrl", cStr(s), cBool(rejected)), vfKey("B2", s), strings.Contains(s, ":"), []string{"B2:urlfilter", fmt.Sprintf("B2:rejected=%v", rejected)},
+			map[string]any{"s": s, "out": out})
+	}
+
 	// ---- C
 	npairs := n / 12
 	if npairs < 6 {
